@@ -12,6 +12,12 @@ TEXT = {
          "MC_Merge proves the operational merge implies the property's sentences (union of keys, override rule, nil keeps container, list strategies, identity, self-merge) for every pair of a bounded universe; Gen_Merge emits every (A, B, policy) and the Go harness compares the real result after Unpack; Trace_Merge accepts recorded random merges only if UcfgMerge explains them."),
  "C16": ("merge", "TLA+ per-field policy tree (UcfgMerge Override/FieldHandling): TLC scoping invariants + exhaustive replay + trace validation",
          "MC_Merge checks ScopedOutside/ScopedInside/NoLeak on the Ideal layer and requires TLC to refute the code's known deviation; Gen_Merge enumerates trees with the same name at two depths x policies x per-field options (named, **, pairs) and replays each; random option lists are trace-validated."),
+ "C12": ("store", "TLA+ heap/handle state machine (UcfgStore): TLC invariants + action properties over all histories to the depth bound; every transition replayed through the public API with a full getter/Has/Child/CountField sweep; random sessions trace-validated",
+         "MC_Store checks read-your-write, Has<=>getter, frame conditions, shift/pad and no-panic on every reachable state/transition; Gen_Store prints one test per transition of the state graph (shortest history, operation, expected result and projection of every handle incl. aliasing relation) which the harness replays; Trace_Store accepts recorded random sessions only if every event is a step of UcfgStore."),
+ "C15": ("store", "TLA+ heap/handle state machine: Path/Parent/FlattenedKeys/Compare invariants checked by TLC on every reachable state; per-transition replay comparing Path(), Parent(), FlattenedKeys, CompareConfigs; trace validation",
+         "MC_Store checks CtxOK/LinksTrue/FlatExact/CompareOK on the Ideal layer and requires TLC to refute the known deviations; conformance compares Path(), Parent()==nil, FlattenedKeys and diff.CompareConfigs of every handle after every transition; the listed finding KF-15 is modelled as a deviation group so that any other disagreement is a violation."),
+ "C10": ("store", "TLA+ heap/handle state machine with merge actions whose source is another held config (direct or embedded): NoSharing / SourceUntouched checked by TLC, replay of all merge-then-mutate histories, trace validation, plus merge-family replay with the source observed before/after",
+         "MC_Store checks that after a merge destination and source share no node and the source's contents/path/parent are unchanged (TLC refutes the re-parenting deviation that was fixed); Gen_Store replays every history merge -> Set/Remove/Merge on either side and compares every handle, including the aliasing relation computed from pointer identity."),
 }
 NOTE = "bounded universes (stated in evidence.rule); projection through the public API; TLC/JVM/Go runtime trusted; Ideal layer + named deviations listed in known_findings.json"
 
@@ -23,7 +29,10 @@ m = dict(
     hooks=dict(guard="verif", enable="go build -tags verif (harness is always built with the tag; no hook sites in /repo at present)",
                baseline_off_cmd="cd /repo && go test -mod=mod -vet=off -count=1 ./...",
                source_commits=[], add_only=True),
+    
     engines=[
+        dict(name="store", path="spec/UcfgStore.tla", serves_properties=["C10", "C12", "C15"],
+             kind_free_text="TLA+ state machine of the Config heap (nodes, handles, one action per API call); MC_Store/Gen_Store/Trace_Store; harness/cmd/ucfgconf/fam_store.go"),
         dict(name="merge", path="spec/UcfgMerge.tla", serves_properties=["C01", "C16"],
              kind_free_text="TLA+ specification of merge policies and per-field policy tree; MC_/Gen_/Trace_ configs; Go replayer+driver harness/cmd/ucfgconf/fam_merge.go"),
     ],
